@@ -201,7 +201,13 @@ def run_chunk(args):
                 pass
     verd = os.path.join(rundir, "verdicts.txt")
     with open(ops) as fi, open(verd, "w") as fo:
-        subprocess.run([DRIVER], stdin=fi, stdout=fo, stderr=subprocess.STDOUT)
+        try:
+            subprocess.run([DRIVER], stdin=fi, stdout=fo, stderr=subprocess.STDOUT,
+                           timeout=int(os.environ.get("VERIF_DRIVER_TIMEOUT", "1800")))
+        except subprocess.TimeoutExpired:
+            # the model did not finish on the implementation's output (e.g. absurd sizes coming out of the code under
+            # test): nothing after the last verdict could be compared - counted as a broken correspondence
+            fo.write("MISMATCH driver-timeout the model driver did not finish on this chunk || # case - - 0 0 || -\n")
     # summarise cases
     cur, cur_hdr, last_hdr = None, None, None
     with open(ops) as fi:
@@ -303,6 +309,8 @@ def parse_bad(v):
 def relevant(pid, cfg, b):
     if b["kind"] in ("PROPFAIL", "KNOWN"):
         return b["tag"] == pid
+    if b["kind"] == "MISMATCH" and b["tag"] == "driver-timeout":
+        return True
     if b["kind"] == "MISMATCH":
         return any(b["cmd"] == c or (c.endswith("*") and b["cmd"].startswith(c[:-1])) for c in cfg["commands"])
     if b["kind"] == "BADLINE":
